@@ -318,6 +318,9 @@ pub proof fn lemma_fc_run_counts(s: FC, ch: OutgoingChannel, q: Seq<(InputHandle
     }
 }
 
+/// how many AMQP frames the transport writes for this transfer: 1 if performative + payload fit the peer's max-frame-size, else the number of frames FrameEncoder::encode_transfer cuts it into
+/// (unit FRAMEENC: `expected(max_frame_body_size, transfer, payload).len()`); the session does not know the peer's max-frame-size, so nothing is known about the value here
+pub uninterp spec fn wire_frames(t: Transfer, p: Payload) -> nat;
 pub type Links = Map<InputHandle, LinkRelay<OutputHandle>>;
 pub type DTMap = Map<(Role, u32), (InputHandle, DeliveryTag)>;
 
@@ -441,7 +444,8 @@ impl Session {
     ensures
         r is Ok,                                                                            // [C07.inner.total]
         r->Ok_0 == xfer_frame(old(self).outgoing_channel, transfer, payload, old(self).next_outgoing_id),   // [C11.delivery-id.stamp] [C01.session.payload-untouched] a frame carrying a tag is stamped with next-outgoing-id; payload and other fields untouched
-        final(self).next_outgoing_id == add32(old(self).next_outgoing_id, 1),                              // [C07.inner.next-outgoing-id] advances once per frame sent [C11.delivery-id.increasing] so successive stamped deliveries get strictly increasing (serial) ids, never reused
+        final(self).next_outgoing_id == add32(old(self).next_outgoing_id, wire_frames(transfer, payload) as int),   // [C07.inner.transfer-id-per-wire-frame] the session's transfer-id accounting counts WIRE frames: a transfer that the transport's encoder cuts into k frames (payload larger than the peer's max-frame-size: FrameEncoder::encode_transfer, unit FRAMEENC) takes k transfer-ids and k units of the peer's incoming window -- the peer counts every transfer frame it receives
+        final(self).next_outgoing_id == add32(old(self).next_outgoing_id, 1),                              // [C07.inner.next-outgoing-id] advances once per (session-level) frame sent [C11.delivery-id.increasing] so successive stamped deliveries get strictly increasing (serial) ids, never reused
         final(self).remote_incoming_window == old(self).remote_incoming_window - 1,                         // [C07.inner.window] decremented once per frame sent
         final(self).delivery_tag_by_id@ == dt_after(old(self).delivery_tag_by_id@, old(self).next_outgoing_id, input_handle, transfer),  // [C02.register] unsettled delivery registered under (Receiver, id) with its own handle and tag; nothing else touched
         final(self).same_outside_fc(old(self)),                                             // [C07.inner.frame]
